@@ -261,3 +261,102 @@ def register(reg, prop):
             "implies(is_identity(), forall(lambda k: self.qubit_permutation[k] == k, 0, N))",
         ],
     ), callsite=False)
+
+    # ==== fill_results: what the observables are given ====================================================
+    UTILS = "emu_mps.utils"
+
+    class Rec:
+        """record of a constructor / helper call (compared by identity)"""
+        def __init__(self, kind, args, kwargs):
+            self.kind, self.args, self.kwargs = kind, args, kwargs
+
+    def recorder(kind):
+        return lambda I, *a, **k: Rec(kind, a, k)
+
+    def setup_fill(mask):
+        def _setup(I, fr):
+            o = impl_obj(I, mask=mask, drives=False)
+            st = Opaque("state")
+            o.fields["state"] = st
+            o.fields["results"] = Opaque("results")
+            calls = []
+
+            def observable(tag):
+                def cb(I2, *a, **k):
+                    calls.append((tag, a))
+                    return None
+                cb.tag = tag
+                return cb
+            obs = [observable("obs0"), observable("obs1")]
+            o.fields["config"].fields["_backend_options"]["observables"] = obs
+            due = {}
+
+            def is_eval_time(I2, self_, callback, t, tolerance=None):
+                if callback.tag not in due:
+                    due[callback.tag] = I2.ctx.fresh("due_" + callback.tag, "bool")
+                return due[callback.tag]
+            fr.locals.update(self=o, CALLS=calls, DUE=due, EVAL=is_eval_time)
+            I.ctx.ghost["fill_calls"], I.ctx.ghost["fill_due"] = calls, due
+        return _setup
+
+    def ghost_fill(I, fr):
+        calls = I.ctx.ghost["fill_calls"]
+        due = I.ctx.ghost["fill_due"]
+        fr.locals["called"] = lambda I2, tag: any(t == tag for t, _ in calls)
+        fr.locals["times_called"] = lambda I2, tag: sum(1 for t, _ in calls if t == tag)
+        fr.locals["due"] = lambda I2, tag: due.get(tag, False)
+        fr.locals["arg"] = lambda I2, tag, k: [a for t, a in calls if t == tag][0][k]
+        fr.locals["kind"] = lambda I2, v: getattr(v, "kind", None)
+        fr.locals["made_from"] = lambda I2, v, k: v.args[k] if k < len(v.args) else None
+        fr.locals["kw"] = lambda I2, v, name: v.kwargs.get(name)
+        fr.locals["same"] = lambda I2, a, b: a is b
+
+    fill_policies = {
+        f"{IMPL}:MPSBackendImpl._is_evaluation_time":
+            lambda I, self_, cb, t, tolerance=None: I.ctx.ghost["fill_eval"](I, self_, cb, t),
+        f"{UTILS}:extended_mps_factors": recorder("extended_mps_factors"),
+        f"{UTILS}:extended_mpo_factors": recorder("extended_mpo_factors"),
+        f"{UTILS}:get_extended_site_index": recorder("get_extended_site_index"),
+    }
+
+    def setup_fill2(mask):
+        inner = setup_fill(mask)
+
+        def _setup(I, fr):
+            inner(I, fr)
+            I.ctx.ghost["fill_eval"] = fr.locals["EVAL"]
+            I.reg.class_policies["MPS"] = lambda I2, cref, args, kwargs: Rec("MPS", tuple(args), dict(kwargs))
+            I.reg.class_policies["MPO"] = lambda I2, cref, args, kwargs: Rec("MPO", tuple(args), dict(kwargs))
+            ghost_fill(I, fr)
+        return _setup
+
+    for mask in (False, True):
+        per_obs = []
+        for tag in ("obs0", "obs1"):
+            per_obs += [
+                # an observable is called exactly when it is due, with this impl's config and results
+                f"called({tag!r}) == due({tag!r})",
+                f"implies(called({tag!r}), times_called({tag!r}) == 1 and same(arg({tag!r}, 0), self.config)"
+                f" and same(arg({tag!r}, 4), self.results))",
+            ]
+            if mask:
+                per_obs += [
+                    # with dark qubits it is given the state / Hamiltonian padded at the False SITES of the filter
+                    f"implies(called({tag!r}), kind(arg({tag!r}, 2)) == 'MPS'"
+                    f" and kind(made_from(arg({tag!r}, 2), 0)) == 'extended_mps_factors'"
+                    f" and same(made_from(made_from(arg({tag!r}, 2), 0), 1), self.well_prepared_qubits_filter)"
+                    f" and kind(kw(arg({tag!r}, 2), 'orthogonality_center')) == 'get_extended_site_index'"
+                    f" and same(made_from(kw(arg({tag!r}, 2), 'orthogonality_center'), 0), self.well_prepared_qubits_filter))",
+                    f"implies(called({tag!r}), kind(arg({tag!r}, 3)) == 'MPO'"
+                    f" and kind(made_from(arg({tag!r}, 3), 0)) == 'extended_mpo_factors'"
+                    f" and same(made_from(made_from(arg({tag!r}, 3), 0), 1), self.well_prepared_qubits_filter))",
+                ]
+            else:
+                per_obs += [f"implies(called({tag!r}), same(arg({tag!r}, 3), self.hamiltonian))"]
+        reg.add_contract(Contract(
+            f"{IMPL}:MPSBackendImpl.fill_results", property=prop,
+            label="MPSBackendImpl.fill_results" + ("[filter]" if mask else "[no filter]"),
+            params={"self": none}, setup=setup_fill2(mask), post_setup=ghost_fill, policies=fill_policies,
+            requires=["self.target_times[len(self.target_times) - 1] > 0"], raises={},
+            ensures=per_obs,
+        ), callsite=False)
